@@ -737,7 +737,9 @@ func buildContainer(t TableSpec, pr *probe) (c *restful.Container, kept TableSpe
 			}
 		}
 		ws := new(restful.WebService)
-		ws.Path(sv.Root)
+		if sv.Root != "" { // (a service with the root "" never calls Path: Add gives it "/" when it is registered)
+			ws.Path(sv.Root)
+		}
 		ws.SetDynamicRoutes(true) // routes may be removed later (domain cors); serving is the same either way
 		// set-up variation: when every route of the service declares its media types, half of the services declare the
 		// first route's lists on the WebService and leave them out on the routes that have exactly those (routes inherit
@@ -984,11 +986,28 @@ func runRoute(raw Sx) (Sx, Sx) {
 	}
 	o := NewOracles()
 	tabulateRouting(o, kept, q.Path)
+	out := append(append(Ls{}, sxList(obs)...), same)
+	if len(kept.Services) >= 2 && len(kept.Services) == len(t.Services) {
+		// the first service is removed again (the container rebuilds its mux) and the request comes in through
+		// ServeHTTP: ninth field. What is left must answer as the registration state says
+		for _, ws := range c.RegisteredWebServices() {
+			first := kept.Services[0].Root
+			if ws.RootPath() == first || (first == "" && ws.RootPath() == "/") {
+				func() {
+					defer func() { recover() }()
+					c.Remove(ws)
+				}()
+				break
+			}
+		}
+		*pr = probe{}
+		out = append(out, serveObs(c, pr, q))
+	}
 	if len(sxList(warm)) > 0 {
 		tabulateRouting(o, kept, sxReq(warm).Path)
-		return L(o.Sx(), kept.Sx(), q.Sx(), B(trace), warm), append(append(Ls{}, sxList(obs)...), same)
+		return L(o.Sx(), kept.Sx(), q.Sx(), B(trace), warm), out
 	}
-	return L(o.Sx(), kept.Sx(), q.Sx(), B(trace)), append(append(Ls{}, sxList(obs)...), same)
+	return L(o.Sx(), kept.Sx(), q.Sx(), B(trace)), out
 }
 
 func init() { domains["route"] = domain{gen: genRoute_, run: runRoute} }
